@@ -20,6 +20,9 @@ pub struct Scenario {
     /// Runs once, single-threaded, before the scenario is explored (e.g. to
     /// set process-wide state such as environment variables).
     pub setup: Option<Box<dyn Fn() + Sync + Send>>,
+    /// Worker threads for this scenario (None = default). Scenarios that
+    /// observe process-wide state run with one.
+    pub threads: Option<usize>,
 }
 
 impl Scenario {
@@ -31,6 +34,7 @@ impl Scenario {
             f,
             run: Box::new(run),
             setup: None,
+            threads: None,
         }
     }
 }
@@ -199,6 +203,9 @@ pub fn run_check(args: &Args, spec: CheckSpec) -> ! {
         let remaining = (total_budget - start.elapsed().as_secs_f64()).max(1.0);
         let share = remaining / (n - i) as f64;
         let mut cfg = Config::new(&sc.name, sc.p, sc.f);
+        if let Some(t) = sc.threads {
+            cfg.threads = t;
+        }
         cfg.deadline = Some(Instant::now() + Duration::from_secs_f64(share.max(0.5)));
         if let Some(s) = &sc.setup {
             s();
